@@ -40,6 +40,7 @@ var (
 )
 
 func Setup() {
+	setupKeywordNames()
 	menu = nil
 	u := func(l, r spec.Expr) spec.Expr { return spec.Bin{Op: "|", L: l, R: r} }
 	allA := spec.AbsP(dos, spec.S("child", tA))
@@ -125,7 +126,7 @@ func WellFormed(b *hx.Built, ns xsel.NodeSet, mayDescend bool, id string) {
 
 // RunOrder: overlap-producing paths and unions from every context node.
 func RunOrder() {
-	b := hx.GenOrSkeleton(genOpts())
+	b := hx.GenOrFixed(genOpts())
 	nd.Assert(b.TieOK, "store-mirrors-script")
 	ctx := nd.Choice(len(b.Doc.Nodes))
 	cur := b.Cursors[ctx]
@@ -240,4 +241,78 @@ func RunUnion() {
 	}
 	l, r := run(unionVWX, "(v|w)|x"), run(unionVWX2, "v|(w|x)")
 	nd.Assert(sameSets(l, r), "union.associative")
+}
+
+// keyword-like element names: axis names (also as prefixes of longer names),
+// node types, function names. The operator names div/mod/and/or are the known
+// finding C08.operator-name-as-name and are left out.
+var kwNames = []string{"preceding", "ancestor-id", "ancestors", "child", "self", "following", "descendant", "parent",
+	"text", "node", "comment", "processing-instruction", "last", "position", "count", "string", "attribute", "namespace"}
+
+type kwEntry struct {
+	src string
+	ast spec.Expr
+	g   *xsel.Grammar
+}
+
+var kwMenu []kwEntry
+
+func setupKeywordNames() {
+	kwMenu = nil
+	addKW := func(ast spec.Expr) {
+		src := spec.RenderAbbrev(ast)
+		g := xsel.MustBuildExpr(src)
+		kwMenu = append(kwMenu, kwEntry{src: src, ast: ast, g: &g})
+	}
+	one := spec.Num{V: 1}
+	for _, n := range kwNames {
+		t := spec.NameTest("", n)
+		addKW(spec.AbsP(dos, spec.S("child", t)))                                                                                // //NAME
+		addKW(spec.AbsP(spec.S("child", spec.NameTest("", "r")), spec.S("child", t)))                                            // /r/NAME
+		addKW(spec.Rel(spec.S("child", t)))                                                                                      // NAME
+		addKW(spec.AbsP(dos, spec.S("child", t), spec.S("child", tAny)))                                                         // //NAME/*
+		addKW(spec.AbsP(dos, spec.S("child", t, one)))                                                                           // //NAME[1]
+		addKW(spec.AbsP(dos, spec.S("child", tAny), spec.S("child", t, spec.Rel(spec.S("attribute", spec.NameTest("", "id")))))) // //*/NAME[@id]
+		addKW(spec.AbsP(dos, spec.S("attribute", t)))                                                                            // //@NAME
+	}
+}
+
+// RunKeywordNames: element and attribute names that look like axis names, node
+// types or function names are ordinary names: abbreviated steps that use them
+// select the same nodes, in ascending document order, as for any other name.
+func RunKeywordNames() {
+	e := func(n string) hx.Event { return hx.Event{N: hx.Elem{Name: n}} }
+	at := func(n, v string) hx.Event { return hx.Event{N: hx.Attr{Name: n, Val: v}} }
+	end := hx.Event{End: true}
+	ev := []hx.Event{e("r")}
+	// every name occurs three times: twice as a child of r (the second with an
+	// id attribute and children), once nested under another keyword-named element
+	for k, n := range kwNames {
+		ev = append(ev, e(n), at(n, "v"), end)
+		ev = append(ev, e(n), at("id", "2"), e(kwNames[(k+1)%len(kwNames)]), at("id", "3"), end, hx.Event{N: hx.Text{Val: "t"}}, end)
+	}
+	ev = append(ev, end)
+	b := hx.FromEvents(ev)
+	nd.Assert(b.TieOK, "store-mirrors-script")
+	// context: root, r, or the second 'preceding' element
+	ctxs := []int{0, 1, 1}
+	for i, n := range b.Doc.Nodes {
+		if n.Kind == spec.Elem && n.Local == "preceding" && len(n.Children) > 0 {
+			ctxs[2] = i
+		}
+	}
+	ctx := ctxs[nd.Choice(3)]
+	part := nd.Choice(len(kwNames)) // one name per path keeps paths short
+	bind := &spec.Bindings{NS: map[string]string{}, Vars: map[string]spec.Val{}}
+	nd.Reach("keyword-names")
+	per := len(kwMenu) / len(kwNames)
+	for k := part * per; k < (part+1)*per; k++ {
+		m := &kwMenu[k]
+		r, err := xsel.Exec(b.Cursors[ctx], m.g)
+		want, wantFail := specEvalAt(b.Doc, m.ast, ctx, bind)
+		c01.CompareResult(b, r, err, want, wantFail, m.src)
+		if ns, ok := r.(xsel.NodeSet); ok {
+			WellFormed(b, ns, false, m.src)
+		}
+	}
 }
